@@ -344,8 +344,8 @@ Qed.
 
 Lemma ran_disconnect_all_spec sc v sc' ps : WF sc -> ran_disconnect_all sc v = (sc', ps) ->
   WF sc' /\ frame sc sc' /\
-  (forall e r s, E sc' e r s <-> E sc e r s /\ e <> v) /\
-  (forall b e t, In (b, e, t) ps <-> (b = true /\ e = v /\ E sc e (fst t) (snd t))).
+  (forall e r s, E sc' e r s <-> E sc e r s /\ e <> ran_of v) /\
+  (forall b e t, In (b, e, t) ps <-> (b = true /\ e = ran_of v /\ E sc e (fst t) (snd t))).
 Proof.
   intros W. unfold ran_disconnect_all. intros D.
   destruct (disc_out_list_spec _ _ _ _ _ W D) as (W1 & F1 & E1 & P1).
@@ -358,10 +358,19 @@ Proof.
     + intros (?&?&?); subst. repeat split; auto. apply (wf_sym sc W). assumption.
 Qed.
 
+Lemma ran_of_inj a b : ran_of a = ran_of b -> a = b.
+Proof. unfold ran_of. lia. Qed.
+Lemma ran_fail_ne a b : ran_of a <> fail_of b.
+Proof. unfold ran_of, fail_of. lia. Qed.
+Lemma in_rans v D : In (ran_of v) (map ran_of D) <-> In v D.
+Proof.
+  rewrite in_map_iff. split; [intros (x & Hx & ?); apply ran_of_inj in Hx; subst; auto|intros; exists v; auto].
+Qed.
+
 Lemma wrap_disconnect_spec D : forall sc sc' ps, WF sc -> wrap_disconnect sc D = (sc', ps) ->
   WF sc' /\ frame sc sc' /\
-  (forall e r s, E sc' e r s <-> E sc e r s /\ ~ In r D /\ ~ In e D) /\
-  (forall e r s, (exists b, In (b, e, (r, s)) ps) <-> E sc e r s /\ (In r D \/ In e D)).
+  (forall e r s, E sc' e r s <-> E sc e r s /\ ~ In r D /\ ~ In e (map ran_of D)) /\
+  (forall e r s, (exists b, In (b, e, (r, s)) ps) <-> E sc e r s /\ (In r D \/ In e (map ran_of D))).
 Proof.
   induction D as [|v rest IH]; intros sc sc' ps W; simpl.
   - intros H; inversion H; subst sc' ps; clear H. split; [exact W|]. split; [apply frame_refl|]. split.
@@ -387,7 +396,7 @@ Proof.
       * intros [HE HT].
         destruct (Nat.eq_dec r v) as [->|Hr].
         { exists false. rewrite !in_app_iff. left. apply P1. simpl. auto. }
-        destruct (Nat.eq_dec e v) as [->|He].
+        destruct (Nat.eq_dec e (ran_of v)) as [->|He].
         { exists true. rewrite !in_app_iff. right; left. apply P2. simpl. repeat split; auto. apply E1. auto. }
         assert (Hx : exists b, In (b, e, (r, s)) p3).
         { apply P3. rewrite E2, E1. split; [tauto|]. destruct HT as [[?|?]|[?|?]]; try congruence; auto. }
@@ -451,21 +460,23 @@ Fixpoint consec (l : list nat) (a b : nat) : Prop :=
 
 Lemma chain_spec order : forall sc, WF sc ->
   WF (chain sc order) /\ frame sc (chain sc order) /\
-  (forall e r s, E (chain sc order) e r s <-> E sc e r s \/ (s = IRun /\ consec order e r)).
+  (forall e r s, E (chain sc order) e r s <-> E sc e r s \/ (s = IRun /\ exists a, e = ran_of a /\ consec order a r)).
 Proof.
   induction order as [|a rest IH]; intros sc W.
-  - simpl. split; [exact W|]. split; [apply frame_refl|]. intros; tauto.
+  - simpl. split; [exact W|]. split; [apply frame_refl|]. intros. split; auto. intros [?|(_&?&_&[])]; auto.
   - destruct rest as [|b rest'].
-    + simpl. split; [exact W|]. split; [apply frame_refl|]. intros; tauto.
-    + change (chain sc (a :: b :: rest')) with (chain (connect_in sc b IRun a) (b :: rest')).
-      destruct (connect_in_spec sc b IRun a W) as (W1 & F1 & E1).
+    + simpl. split; [exact W|]. split; [apply frame_refl|]. intros. split; auto. intros [?|(_&?&_&[])]; auto.
+    + change (chain sc (a :: b :: rest')) with (chain (connect_in sc b IRun (ran_of a)) (b :: rest')).
+      destruct (connect_in_spec sc b IRun (ran_of a) W) as (W1 & F1 & E1).
       destruct (IH _ W1) as (W2 & F2 & E2).
       split; [exact W2|]. split; [eapply frame_trans; eauto|].
-      intros e r s. rewrite E2, E1.
-      change (consec (a :: b :: rest') e r) with ((e = a /\ r = b) \/ consec (b :: rest') e r).
-      split.
-      * intros [[?|(?&?&?)]|[? ?]]; auto.
-      * intros [?|[? [[? ?]|?]]]; auto; subst; left; right; auto.
+      intros e r s. rewrite E2, E1. split.
+      * intros [[?|(?&?&?)]|(?&x&?&?)]; auto.
+        -- right. split; auto. exists a. split; auto. left; auto.
+        -- right. split; auto. exists x. split; auto. right; auto.
+      * intros [?|(?&x&?&Hc)]; auto.
+        change (consec (a :: b :: rest') x r) with ((x = a /\ r = b) \/ consec (b :: rest') x r) in Hc.
+        destruct Hc as [[-> ->]|Hc]; [left; right; auto|]. right. split; auto. exists x; auto.
 Qed.
 
 Lemma consec_In l a b : consec l a b -> In a l /\ In b l.
@@ -510,8 +521,9 @@ Proof.
   intros He sc r sc' l x. unfold run_with. destruct (failed sc r).
   - intros H; inversion H; subst; apply cframe_refl.
   - destruct (bad sc r).
-    + intros H; inversion H; subst; apply cframe_mark_failed.
-    + destruct (emit sc r) as [[sc1 l1] x1] eqn:Q. intros H; inversion H; subst. eapply He; eauto.
+    + destruct (emit (mark_failed sc r) (fail_of r)) as [[sc1 l1] x1] eqn:Q. intros H; inversion H; subst.
+      eapply cframe_trans; [apply cframe_mark_failed|]. eapply He; eauto.
+    + destruct (emit sc (ran_of r)) as [[sc1 l1] x1] eqn:Q. intros H; inversion H; subst. eapply He; eauto.
 Qed.
 
 Lemma deliver_all_cframe runf e : emit_ok runf ->
@@ -601,10 +613,7 @@ Proof.
   - intros H; inversion H; subst. split; [apply cframe_refl|apply upper_cframe_refl].
   - destruct (run_children fuel lv sc) as [[sc1 l1] x1] eqn:Q1. assert (C1 := run_children_cframe _ _ _ _ _ _ Q1).
     destruct x1.
-    + destruct (par sc); [| |destruct up as [[usc pk]|]];
-        try (intros H; inversion H; subst; split; [exact C1|apply upper_cframe_refl]).
-      destruct (emit_dfs fuel (S lv) usc pk) as [[usc1 l2] x2] eqn:Q2. intros H; inversion H; subst.
-      split; [exact C1|]. simpl. split; auto. eapply emit_dfs_cframe; eauto.
+    + intros H; inversion H; subst; split; [exact C1|apply upper_cframe_refl].
     + destruct (par sc); [| |destruct up as [[usc pk]|]]; intros H; inversion H; subst.
       * split; [exact C1|apply upper_cframe_refl].
       * split; [|apply upper_cframe_refl]. eapply cframe_trans; [exact C1|apply cframe_set_pfailed].
@@ -948,9 +957,9 @@ Proof. unfold relabel; simpl. destruct (memn j D); reflexivity. Qed.
 Lemma finally_restore_spec sc sc1 sc4 D pairs saved :
   WF sc -> WF sc1 -> WF sc4 ->
   (forall e r s, E sc1 e r s <-> E sc e r s) ->
-  (forall e r s, (exists b, In (b, e, (r, s)) pairs) <-> E sc1 e r s /\ (In r D \/ In e D)) ->
-  (forall e r s, E sc4 e r s -> ~ In r D -> E sc1 e r s /\ ~ In e D) ->
-  (forall e r s, E sc1 e r s -> ~ In r D -> ~ In e D -> E sc4 e r s) ->
+  (forall e r s, (exists b, In (b, e, (r, s)) pairs) <-> E sc1 e r s /\ (In r D \/ In e (map ran_of D))) ->
+  (forall e r s, E sc4 e r s -> ~ In r D -> E sc1 e r s /\ ~ In e (map ran_of D)) ->
+  (forall e r s, E sc1 e r s -> ~ In r D -> ~ In e (map ran_of D) -> E sc4 e r s) ->
   (forall i, lbl sc4 i = lbl (relabel sc D) i) ->
   (forall i, ups sc4 i = ups sc i) -> (forall i, exe sc4 i = exe sc i) -> (forall i, bad sc4 i = bad sc i) ->
   par sc4 = par sc -> saved = starting sc -> (par sc = PNone -> starting sc4 = starting sc) ->
@@ -969,7 +978,7 @@ Proof.
   { intros e r s. rewrite E7, E6, HP. change (E sc5 e r s) with (E sc4 e r s). rewrite <- HE1. split.
     - intros [[Ha Hb']|[Ha _]]; auto. apply (H4a _ _ _ Ha Hb').
     - intros Ha. destruct (in_dec_nat r D) as [Hr|Hr]; [right; auto|].
-      destruct (in_dec_nat e D) as [He|He]; [right; auto|]. left. split; auto. }
+      destruct (in_dec_nat e (map ran_of D)) as [He|He]; [right; auto|]. left. split; auto. }
   assert (Hl7 : forall i, lbl sc7 i = lbl sc i).
   { intros i. rewrite G1. unfold sc5, restore_labels. simpl. rewrite Hl. apply relabel_restore. }
   assert (Hp7 : par sc7 = par sc) by (rewrite G7; exact Hp).
@@ -1056,7 +1065,7 @@ Proof.
     destruct (run_upstream_spec _ _ _ _ _ _ _ _ _ _ W3 Ru) as (W4&M2&M3&M4&M5&M6&M7&M8&M9&U).
     split; [|exact U].
     apply (finally_restore_spec sc sc1 sc4 D pairs (starting sc3) W W1 W4 HE1 P2).
-    + intros e r s H4 Hr. apply M2, E3 in H4. destruct H4 as [H4|[_ Hc]].
+    + intros e r s H4 Hr. apply M2, E3 in H4. destruct H4 as [H4|[_ (a & _ & Hc)]].
       * apply E2 in H4. tauto.
       * exfalso. apply Hr. apply consec_In in Hc. eapply Permutation_in; [exact Po|tauto].
     + intros e r s H1 Hr He. apply M3; [|intros ->; contradiction]. apply E3. left. apply E2. auto.
@@ -1074,7 +1083,7 @@ Proof.
     + eapply WF_tables; [apply tables_set_lbl|apply tables_set_lbl|exact W7].
     + intros e r s. change (E (restore_labels (reconnect_all sc2 pairs) D (lbl sc)) e r s)
         with (E (reconnect_all sc2 pairs) e r s). rewrite E7, E2, P2, HE1.
-      destruct (in_dec_nat r D); destruct (in_dec_nat e D); tauto.
+      destruct (in_dec_nat r D); destruct (in_dec_nat e (map ran_of D)); tauto.
     + intros i. simpl. rewrite K1, G1. apply relabel_restore.
     + simpl. rewrite K8, G8. reflexivity.
     + intros i. simpl. rewrite K2, G2. reflexivity.
@@ -1144,151 +1153,146 @@ Fixpoint chained sc (l : list nat) : Prop :=
   match l with
   | [] => True
   | a :: r => match r with
-              | [] => c_ran sc a = []
-              | b :: _ => c_ran sc a = [(b, IRun)] /\ chained sc r
+              | [] => c_ran sc (ran_of a) = []
+              | b :: _ => c_ran sc (ran_of a) = [(b, IRun)] /\ chained sc r
               end
   end.
 
-Lemma chained_cframe a b l : cframe a b -> chained a l -> chained b l.
+(* no node of the list has anything connected to its `failed` signal *)
+Definition fail_quiet sc (l : list nat) : Prop := forall v, In v l -> c_ran sc (fail_of v) = [].
+
+Lemma chained_ext a b l : (forall e, c_ran b e = c_ran a e) -> chained a l -> chained b l.
 Proof.
-  intros (_&C2&_). induction l as [|x r IH]; simpl; auto. destruct r as [|y r'].
+  intros C2. induction l as [|x r IH]; simpl; auto. destruct r as [|y r'].
   - rewrite C2. auto.
   - rewrite C2. intros [? ?]; split; auto.
 Qed.
 
-Lemma dfs_chain lv : forall l a fuel sc sc' log x, chained sc (a :: l) ->
-  run_with (emit_dfs fuel lv) lv sc a = (sc', log, x) ->
-  exists p q, a :: l = p ++ q /\ log = map (pair lv) p /\ (x = Ok -> q = []).
-Proof.
-  induction l as [|b l' IH]; intros a fuel sc sc' log x Hc; unfold run_with.
-  - destruct (failed sc a); [intros H; inversion H; subst; exists [], [a]; repeat split; auto; discriminate|].
-    destruct (bad sc a); [intros H; inversion H; subst; exists [a], []; repeat split; auto|].
-    simpl in Hc. destruct fuel as [|f]; simpl.
-    + intros H; inversion H; subst. exists [a], []; repeat split; auto.
-    + rewrite Hc. simpl. intros H; inversion H; subst. exists [a], []; repeat split; auto.
-  - destruct (failed sc a); [intros H; inversion H; subst; exists [], (a :: b :: l'); repeat split; auto; discriminate|].
-    destruct (bad sc a); [intros H; inversion H; subst; exists [a], (b :: l'); repeat split; auto; discriminate|].
-    destruct Hc as [Ha Hc]. destruct fuel as [|f]; simpl.
-    + intros H; inversion H; subst. exists [a], (b :: l'); repeat split; auto; discriminate.
-    + rewrite Ha. simpl.
-      destruct (run_with (emit_dfs f lv) lv sc b) as [[sc2 l2] x2] eqn:Q.
-      destruct (IH _ _ _ _ _ _ Hc Q) as (p & q & Hpq & Hl & Hx).
-      destruct x2; intros H; inversion H; subst; clear H.
-      * exists (a :: p), q. rewrite Hpq. repeat split; auto; try (simpl; rewrite app_nil_r; reflexivity).
-      * exists (a :: p), q. rewrite Hpq. repeat split; auto; discriminate.
-Qed.
-
-Lemma queue_chain lv : forall l a fuel sc e errs sc' log x, chained sc (a :: l) ->
-  queue_loop fuel lv sc [(e, (a, IRun))] errs = (sc', log, x) ->
-  exists p q, a :: l = p ++ q /\ log = map (pair lv) p /\ (x = Ok -> q = []).
-Proof.
-  induction l as [|b l' IH]; intros a fuel sc e errs sc' log x Hc; destruct fuel as [|f]; simpl;
-    try (intros H; inversion H; subst; exists [], (a :: l); repeat split; auto; discriminate).
-  - intros H; inversion H; subst. exists [], [a]; repeat split; auto; discriminate.
-  - unfold run_q. destruct (failed sc a).
-    + destruct f; simpl; intros H; inversion H; subst; exists [], [a]; repeat split; auto; discriminate.
-    + destruct (bad sc a).
-      * destruct f; simpl; intros H; inversion H; subst; exists [a], []; repeat split; auto.
-      * simpl in Hc. rewrite Hc. simpl. destruct f; simpl; intros H; inversion H; subst; exists [a], []; repeat split; auto.
-  - intros H; inversion H; subst. exists [], (a :: b :: l'); repeat split; auto; discriminate.
-  - unfold run_q. destruct (failed sc a).
-    + destruct f; simpl; intros H; inversion H; subst; exists [], (a :: b :: l'); repeat split; auto; discriminate.
-    + destruct (bad sc a).
-      * destruct f; simpl; intros H; inversion H; subst; exists [a], (b :: l'); repeat split; auto; discriminate.
-      * destruct Hc as [Ha Hc]. rewrite Ha. simpl.
-        destruct (queue_loop f lv sc [(a, (b, IRun))] errs) as [[sc3 l3] x3] eqn:Q.
-        destruct (IH _ _ _ _ _ _ _ _ Hc Q) as (p & q & Hpq & Hl & Hx).
-        intros H; inversion H; subst; clear H.
-        exists (a :: p), q. rewrite Hpq. repeat split; auto.
-Qed.
-
-Lemma run_children_chain fuel lv sc first l sc' log x : starting sc = [first] -> chained sc (first :: l) ->
-  run_children fuel lv sc = (sc', log, x) ->
-  exists p q, first :: l = p ++ q /\ log = map (pair lv) p /\ (x = Ok -> q = []).
-Proof.
-  intros Hs Hc. unfold run_children. rewrite Hs. simpl. unfold run_q.
-  destruct (failed sc first); [intros H; inversion H; subst; exists [], (first :: l); repeat split; auto; discriminate|].
-  destruct (bad sc first); [intros H; inversion H; subst; exists [first], l; repeat split; auto; discriminate|].
-  simpl. rewrite app_nil_r. destruct l as [|b l'].
-  - simpl in Hc. rewrite Hc. simpl. destruct fuel; simpl; intros H; inversion H; subst; exists [first], []; repeat split; auto.
-  - destruct Hc as [Ha Hc]. rewrite Ha. simpl.
-    destruct (queue_loop fuel lv sc [(first, (b, IRun))] false) as [[sc2 l2] x2] eqn:Q.
-    destruct (queue_chain _ _ _ _ _ _ _ _ _ _ Hc Q) as (p & q & Hpq & Hl & Hx).
-    intros H; inversion H; subst; clear H. exists (first :: p), q. rewrite Hpq. repeat split; auto.
-Qed.
-
-(* ---- entries written by an emission all belong to that level ---- *)
-Definition at_level (lv : nat) (l : list entry) : Prop := Forall (fun e => fst e = lv) l.
-Definition emit_lv (lv : nat) (emit : scope -> nat -> scope * list entry * res) : Prop :=
-  forall sc k sc' l x, emit sc k = (sc', l, x) -> at_level lv l.
-
-Lemma run_with_lv emit lv : emit_lv lv emit -> emit_lv lv (run_with emit lv).
-Proof.
-  intros He sc r sc' l x. unfold run_with. destruct (failed sc r).
-  - intros H; inversion H; subst; constructor.
-  - destruct (bad sc r).
-    + intros H; inversion H; subst. repeat constructor.
-    + destruct (emit sc r) as [[sc1 l1] x1] eqn:Q. intros H; inversion H; subst.
-      constructor; [reflexivity|]. eapply He; eauto.
-Qed.
-
-Lemma deliver_all_lv runf lv e : emit_lv lv runf ->
-  forall conns sc sc' l x, deliver_all runf e conns sc = (sc', l, x) -> at_level lv l.
-Proof.
-  intros Hr. induction conns as [|[r s] rest IH]; intros sc sc' l x; simpl.
-  - intros H; inversion H; subst; constructor.
-  - destruct (match s with IRun => (sc, true) | IAcc => acc_deliver sc r e end) as [sc1 go].
-    destruct go.
-    + destruct (runf sc1 r) as [[sc2 l2] x2] eqn:Q2. assert (C2 := Hr _ _ _ _ _ Q2). destruct x2.
-      * destruct (deliver_all runf e rest sc2) as [[sc3 l3] x3] eqn:Q3. intros H; inversion H; subst.
-        apply Forall_app. split; auto. eapply IH; eauto.
-      * intros H; inversion H; subst. exact C2.
-    + intros H. eapply IH; eauto.
-Qed.
-
-Lemma emit_dfs_lv fuel lv : emit_lv lv (emit_dfs fuel lv).
-Proof.
-  induction fuel as [|f IH]; intros sc k sc' l x; simpl.
-  - intros H; inversion H; subst; constructor.
-  - intros H. eapply deliver_all_lv; [|exact H]. apply run_with_lv. exact IH.
-Qed.
-
-Lemma emit_dfs_quiet fuel lv sc k sc' l x : c_ran sc k = [] -> emit_dfs fuel lv sc k = (sc', l, x) -> l = [].
+Lemma emit_dfs_quiet fuel lv sc e sc' l x : c_ran sc e = [] -> emit_dfs fuel lv sc e = (sc', l, x) -> l = [].
 Proof.
   intros Hq. destruct fuel; simpl; [intros H; inversion H; auto|]. rewrite Hq. simpl.
   intros H; inversion H; auto.
 Qed.
 
-(* an enclosing macro whose `ran` is connected pushes its downstream siblings: absent here *)
-Definition quiet (sc : scope) (up : upper) : Prop :=
-  match par sc, up with
-  | PMacro, Some (usc, pk) => c_ran usc pk = []
-  | _, _ => True
-  end.
+Definition chain_result (lv : nat) (l : list nat) sc (log : list entry) (x : res) : Prop :=
+  (x = Ok -> log = map (pair lv) l) /\
+  (fail_quiet sc l -> exists p q, l = p ++ q /\ log = map (pair lv) p).
+
+Lemma chain_result_cons lv a l sc log x : chain_result lv l sc log x -> chain_result lv (a :: l) sc ((lv, a) :: log) x.
+Proof.
+  intros [H1 H2]. split.
+  - intros Hx. rewrite (H1 Hx). reflexivity.
+  - intros Hq. destruct H2 as (p & q & -> & ->); [intros v Hv; apply Hq; right; auto|].
+    exists (a :: p), q. split; reflexivity.
+Qed.
+
+Lemma chain_result_stop lv a l sc (x : res) : x <> Ok -> chain_result lv (a :: l) sc [] x.
+Proof. intros Hx. split; [intros; contradiction|]. intros _. exists [], (a :: l). split; reflexivity. Qed.
+Lemma chain_result_one lv a l sc (x : res) : (x = Ok -> l = []) -> chain_result lv (a :: l) sc [(lv, a)] x.
+Proof.
+  intros Hx. split; [intros H; rewrite (Hx H); reflexivity|]. intros _. exists [a], l. split; reflexivity.
+Qed.
+
+Lemma dfs_chain lv : forall l a fuel sc sc' log x, chained sc (a :: l) ->
+  run_with (emit_dfs fuel lv) lv sc a = (sc', log, x) -> chain_result lv (a :: l) sc log x.
+Proof.
+  induction l as [|b l' IH]; intros a fuel sc sc' log x Hc; unfold run_with.
+  - destruct (failed sc a); [intros H; inversion H; subst; apply chain_result_stop; discriminate|].
+    destruct (bad sc a).
+    + destruct (emit_dfs fuel lv (mark_failed sc a) (fail_of a)) as [[sc1 l1] x1] eqn:Q.
+      intros H; inversion H; subst; clear H. split; [destruct x1; discriminate|].
+      intros Hq. assert (l1 = []) as ->.
+      { eapply emit_dfs_quiet; [|exact Q]. apply (Hq a). left; auto. }
+      exists [a], []. split; reflexivity.
+    + simpl in Hc. destruct (emit_dfs fuel lv sc (ran_of a)) as [[sc1 l1] x1] eqn:Q.
+      assert (l1 = []) as -> by (eapply emit_dfs_quiet; eauto).
+      intros H; inversion H; subst. apply chain_result_one. auto.
+  - destruct (failed sc a); [intros H; inversion H; subst; apply chain_result_stop; discriminate|].
+    destruct (bad sc a).
+    + destruct (emit_dfs fuel lv (mark_failed sc a) (fail_of a)) as [[sc1 l1] x1] eqn:Q.
+      intros H; inversion H; subst; clear H. split; [destruct x1; discriminate|].
+      intros Hq. assert (l1 = []) as ->.
+      { eapply emit_dfs_quiet; [|exact Q]. apply (Hq a). left; auto. }
+      exists [a], (b :: l'). split; reflexivity.
+    + destruct Hc as [Ha Hc]. destruct fuel as [|f]; simpl.
+      * intros H; inversion H; subst. apply chain_result_one. discriminate.
+      * rewrite Ha. simpl.
+        destruct (run_with (emit_dfs f lv) lv sc b) as [[sc2 l2] x2] eqn:Q.
+        assert (R := IH _ _ _ _ _ _ Hc Q).
+        destruct x2; intros H; inversion H; subst; clear H.
+        -- rewrite app_nil_r. apply chain_result_cons. exact R.
+        -- apply chain_result_cons. exact R.
+Qed.
+
+Lemma queue_loop_errs lv : forall fuel sc q sc' l x, queue_loop fuel lv sc q true = (sc', l, x) -> x <> Ok.
+Proof.
+  induction fuel as [|f IH]; intros sc q sc' l x; destruct q as [|[e [r s]] rest]; simpl;
+    try (intros H; inversion H; subst; discriminate).
+  destruct (match s with IRun => (sc, true) | IAcc => acc_deliver sc r e end) as [sc1 go]. destruct go.
+  - destruct (run_q lv sc1 r) as [[[sc2 l2] q2] x2].
+    destruct (queue_loop f lv sc2 (rest ++ q2) _) as [[sc3 l3] x3] eqn:Q3.
+    intros H; inversion H; subst. eapply IH. destruct x2; exact Q3.
+  - intros H. eapply IH; eauto.
+Qed.
+
+Lemma queue_loop_nil fuel lv sc errs : queue_loop fuel lv sc [] errs = (sc, [], if errs then Err EFailedChild else Ok).
+Proof. destruct fuel; reflexivity. Qed.
+
+Lemma queue_chain lv : forall l a fuel sc e errs sc' log x, chained sc (a :: l) ->
+  queue_loop fuel lv sc [(e, (a, IRun))] errs = (sc', log, x) -> chain_result lv (a :: l) sc log x.
+Proof.
+  induction l as [|b l' IH]; intros a fuel sc e errs sc' log x Hc; destruct fuel as [|f];
+    try (simpl; intros H; inversion H; subst; apply chain_result_stop; discriminate).
+  - simpl. unfold run_q. destruct (failed sc a).
+    + simpl. rewrite queue_loop_nil. intros H; inversion H; subst. apply chain_result_stop; discriminate.
+    + destruct (bad sc a).
+      * simpl. destruct (queue_loop f lv (mark_failed sc a) _ true) as [[sc3 l3] x3] eqn:Q.
+        intros H; inversion H; subst; clear H. split.
+        -- intros Hx. exfalso. eapply queue_loop_errs; eauto.
+        -- intros Hq. rewrite (Hq a (or_introl eq_refl)) in Q. simpl in Q. rewrite queue_loop_nil in Q.
+           inversion Q; subst. exists [a], []. split; reflexivity.
+      * simpl in Hc. rewrite Hc. simpl. rewrite queue_loop_nil. intros H; inversion H; subst.
+        apply chain_result_one. auto.
+  - simpl. unfold run_q. destruct (failed sc a).
+    + simpl. rewrite queue_loop_nil. intros H; inversion H; subst. apply chain_result_stop; discriminate.
+    + destruct (bad sc a).
+      * simpl. destruct (queue_loop f lv (mark_failed sc a) _ true) as [[sc3 l3] x3] eqn:Q.
+        intros H; inversion H; subst; clear H. split.
+        -- intros Hx. exfalso. eapply queue_loop_errs; eauto.
+        -- intros Hq. rewrite (Hq a (or_introl eq_refl)) in Q. simpl in Q. rewrite queue_loop_nil in Q.
+           inversion Q; subst. exists [a], (b :: l'). split; reflexivity.
+      * destruct Hc as [Ha Hc]. rewrite Ha. simpl.
+        destruct (queue_loop f lv sc [(ran_of a, (b, IRun))] errs) as [[sc3 l3] x3] eqn:Q.
+        assert (R := IH _ _ _ _ _ _ _ _ Hc Q).
+        intros H; inversion H; subst; clear H. apply chain_result_cons. exact R.
+Qed.
+
+Lemma run_children_chain fuel lv sc first l sc' log x : starting sc = [first] -> chained sc (first :: l) ->
+  run_children fuel lv sc = (sc', log, x) -> chain_result lv (first :: l) sc log x.
+Proof.
+  intros Hs Hc. unfold run_children. rewrite Hs. simpl. unfold run_q.
+  destruct (failed sc first); [intros H; inversion H; subst; apply chain_result_stop; discriminate|].
+  destruct (bad sc first); [intros H; inversion H; subst; apply chain_result_one; discriminate|].
+  simpl. rewrite app_nil_r. destruct l as [|b l'].
+  - simpl in Hc. rewrite Hc. simpl. rewrite queue_loop_nil. intros H; inversion H; subst.
+    apply chain_result_one. auto.
+  - destruct Hc as [Ha Hc]. rewrite Ha. simpl.
+    destruct (queue_loop fuel lv sc [(ran_of first, (b, IRun))] false) as [[sc2 l2] x2] eqn:Q.
+    assert (R := queue_chain _ _ _ _ _ _ _ _ _ _ Hc Q).
+    intros H; inversion H; subst; clear H. apply chain_result_cons. exact R.
+Qed.
 
 Lemma run_parent_chain fuel lv sc up first l sc' up' log x : starting sc = [first] -> chained sc (first :: l) ->
-  run_parent fuel lv sc up = (sc', up', log, x) ->
-  exists p q casc, first :: l = p ++ q /\ log = map (pair lv) p ++ casc /\ (x = Ok -> q = []) /\
-                   at_level (S lv) casc /\ (quiet sc up -> casc = []).
+  run_parent fuel lv sc up = (sc', up', log, x) -> chain_result lv (first :: l) sc log x.
 Proof.
   intros Hs Hc. unfold run_parent.
   destruct (match par sc, up with
             | PMacro, Some (usc, pk) => failed usc pk | PWf, _ => pfailed sc | _, _ => false end).
-  - intros H; inversion H; subst. exists [], (first :: l), []. repeat split; auto; try constructor. discriminate.
+  - intros H; inversion H; subst. apply chain_result_stop; discriminate.
   - destruct (run_children fuel lv sc) as [[sc1 l1] x1] eqn:Q1.
-    destruct (run_children_chain _ _ _ _ _ _ _ _ Hs Hc Q1) as (p & q & Hpq & Hl & Hx).
-    assert (Base : forall s u, (s, u, l1, x1) = (sc', up', log, x) ->
-       exists p q casc, first :: l = p ++ q /\ log = map (pair lv) p ++ casc /\ (x = Ok -> q = []) /\
-                        at_level (S lv) casc /\ (quiet sc up -> casc = [])).
-    { intros s u H; inversion H; subst. exists p, q, []. rewrite app_nil_r. repeat split; auto. constructor. }
-    destruct x1.
-    + destruct (par sc) eqn:P; [eapply Base|eapply Base|].
-      destruct up as [[usc pk]|]; [|eapply Base].
-      destruct (emit_dfs fuel (S lv) usc pk) as [[usc1 l2] x2] eqn:Q2. intros H; inversion H; subst.
-      exists p, q, l2. repeat split; auto.
-      * eapply emit_dfs_lv; eauto.
-      * unfold quiet. rewrite P. intros Hq. eapply emit_dfs_quiet; eauto.
-    + destruct (par sc); [eapply Base|eapply Base|destruct up as [[usc pk]|]; eapply Base].
+    assert (R := run_children_chain _ _ _ _ _ _ _ _ Hs Hc Q1).
+    destruct x1; [intros H; inversion H; subst; exact R|].
+    destruct (par sc); [| |destruct up as [[usc pk]|]]; intros H; inversion H; subst; exact R.
 Qed.
 
 (* ---- from the edge characterisation to the exact `ran` lists of the chain ---- *)
@@ -1299,7 +1303,7 @@ Proof.
 Qed.
 
 Lemma chained_of_consec sc : forall l, NoDup l -> (forall v, NoDup (c_ran sc v)) ->
-  (forall v t, In v l -> (In t (c_ran sc v) <-> snd t = IRun /\ consec l v (fst t))) -> chained sc l.
+  (forall v t, In v l -> (In t (c_ran sc (ran_of v)) <-> snd t = IRun /\ consec l v (fst t))) -> chained sc l.
 Proof.
   induction l as [|a r IH]; intros Hn Hnd H; [exact I|].
   inversion Hn as [|? ? Ha Hr]; subst.
@@ -1350,6 +1354,7 @@ Proof.
   apply existsb_exists. exists v. split; auto. apply memn_In. exact Hin.
 Qed.
 
+
 (* ---- errors of the run phase are never the two refusals ---- *)
 Definition run_err (x : res) : Prop := x <> Err ECyclic /\ x <> Err EExecutor.
 Definition emit_re (emit : scope -> nat -> scope * list entry * res) : Prop :=
@@ -1359,8 +1364,10 @@ Ltac re := split; discriminate.
 Lemma run_with_re emit lv : emit_re emit -> emit_re (run_with emit lv).
 Proof.
   intros He sc r sc' l x. unfold run_with. destruct (failed sc r); [intros H; inversion H; re|].
-  destruct (bad sc r); [intros H; inversion H; re|].
-  destruct (emit sc r) as [[sc1 l1] x1] eqn:Q. intros H; inversion H; subst. eapply He; eauto.
+  destruct (bad sc r).
+  - destruct (emit (mark_failed sc r) (fail_of r)) as [[sc1 l1] x1] eqn:Q. intros H; inversion H; subst.
+    destruct x1; [re|]. eapply He; eauto.
+  - destruct (emit sc (ran_of r)) as [[sc1 l1] x1] eqn:Q. intros H; inversion H; subst. eapply He; eauto.
 Qed.
 Lemma deliver_all_re runf e : emit_re runf ->
   forall conns sc sc' l x, deliver_all runf e conns sc = (sc', l, x) -> run_err x.
@@ -1414,18 +1421,8 @@ Proof.
             | PMacro, Some (usc, pk) => failed usc pk | PWf, _ => pfailed sc | _, _ => false end);
     [intros H; inversion H; re|].
   destruct (run_children fuel lv sc) as [[sc1 l1] x1] eqn:Q1. assert (C1 := run_children_re _ _ _ _ _ _ Q1).
-  destruct x1.
-  - destruct (par sc); [| |destruct up as [[usc pk]|]]; try (intros H; inversion H; subst; re).
-    destruct (emit_dfs fuel (S lv) usc pk) as [[usc1 l2] x2] eqn:Q2. intros H; inversion H; subst.
-    eapply emit_dfs_re; eauto.
-  - destruct (par sc); [| |destruct up as [[usc pk]|]]; intros H; inversion H; subst; exact C1.
-Qed.
-
-Lemma chained_ext a b l : (forall e, c_ran b e = c_ran a e) -> chained a l -> chained b l.
-Proof.
-  intros C2. induction l as [|x r IH]; simpl; auto. destruct r as [|y r'].
-  - rewrite C2. auto.
-  - rewrite C2. intros [? ?]; split; auto.
+  destruct x1; [intros H; inversion H; subst; re|].
+  destruct (par sc); [| |destruct up as [[usc pk]|]]; intros H; inversion H; subst; exact C1.
 Qed.
 
 (* ================================================================== what one level executes *)
@@ -1447,15 +1444,20 @@ Proof.
   split; [exact T|]. destruct T as (T1&T2&T3). eapply topo_target_last; eauto.
 Qed.
 
-Definition level_exec (lv : nat) sc (k : nat) (up : upper) (log : list entry) (x : res) : Prop :=
-  exists order l p q casc,
-    topo_enum (ups sc) k order /\ order = l ++ [k] /\ l = p ++ q /\
-    log = map (pair lv) p ++ casc /\ (x = Ok -> q = []) /\
-    at_level (S lv) casc /\ (quiet sc up -> casc = []) /\ run_err x.
+(* every connection of a `failed` signal of a node of the closure stays inside the closure (where the
+   pull has disconnected the receiving triggers) *)
+Definition fail_inside sc (order : list nat) : Prop :=
+  forall v t, In v order -> In t (c_ran sc (fail_of v)) -> In (fst t) order.
+
+Definition level_exec (lv : nat) sc (k : nat) (log : list entry) (x : res) : Prop :=
+  exists order l,
+    topo_enum (ups sc) k order /\ order = l ++ [k] /\
+    (x = Ok -> log = map (pair lv) l) /\
+    (fail_inside sc order -> exists p q, l = p ++ q /\ log = map (pair lv) p) /\ run_err x.
 
 Lemma level_pull_exec fuel lv sc k up sc' up' log x : WF sc ->
   level_pull fuel lv sc k up = (sc', up', log, x) ->
-  (log = [] /\ (x = Err ECyclic \/ x = Err EExecutor)) \/ level_exec lv sc k up log x.
+  (log = [] /\ (x = Err ECyclic \/ x = Err EExecutor)) \/ level_exec lv sc k log x.
 Proof.
   intros W. unfold level_pull.
   destruct (closure fuel (ups sc) k) as [D|] eqn:C; [|intros H; inversion H; subst; left; auto].
@@ -1478,12 +1480,12 @@ Proof.
   { apply NoDup_remove_2 in Hnd. rewrite app_nil_r in Hnd. exact Hnd. }
   assert (Hpar3 : par sc3 = par sc) by (rewrite K7, G7; reflexivity).
   unfold run_upstream in Ru. destruct (Nat.eqb (hd k order) k) eqn:Hf.
-  - inversion Ru; subst sc4 up4 l4 x4. exists order, l, [], [], [].
+  - inversion Ru; subst sc4 up4 l4 x4. exists order, l.
     assert (l = []).
     { destruct l as [|a l']; auto. exfalso. apply Nat.eqb_eq in Hf. rewrite Hol in Hf. simpl in Hf.
       subst a. apply Hkl. left; auto. }
-    subst l. refine (conj T (conj Hol (conj eq_refl (conj eq_refl (conj (fun _ => eq_refl) (conj _ (conj (fun _ => eq_refl) _))))))).
-    + constructor.
+    subst l. refine (conj T (conj Hol (conj (fun _ => eq_refl) (conj _ _)))).
+    + intros _. exists [], []. split; reflexivity.
     + split; discriminate.
   - apply Nat.eqb_neq in Hf.
     destruct l as [|first l']; [rewrite Hol in Hf; simpl in Hf; congruence|].
@@ -1491,37 +1493,46 @@ Proof.
     destruct (disconnect_run sc3 k) as [sc3' pk] eqn:Dk. simpl fst in Ru.
     destruct (disconnect_run_spec _ _ _ _ W3 Dk) as (W3' & F3' & E3' & _).
     destruct F3' as (J1&J2&J3&J4&J5&J6&J7&J8&J9&J10).
+    assert (HlD : forall v, In v (first :: l') -> In v D).
+    { intros v Hv. eapply Permutation_in; [exact Po|]. rewrite Hol. apply in_app_iff. left. exact Hv. }
     assert (Hch : chained sc3' (first :: l')).
     { apply chained_of_consec.
       - apply NoDup_remove_1 in Hnd. rewrite app_nil_r in Hnd. exact Hnd.
       - apply (wf_nd_out _ W3').
       - intros v [r s] Hv. simpl. rewrite <- (wf_sym _ W3').
-        change (In v (conns_in sc3' r s)) with (E sc3' v r s). rewrite E3', E3, E2.
+        change (In (ran_of v) (conns_in sc3' r s)) with (E sc3' (ran_of v) r s). rewrite E3', E3, E2.
         rewrite <- (consec_snoc_ne _ _ Hkl v r). rewrite <- Hol.
-        assert (HvD : In v D).
-        { eapply Permutation_in; [exact Po|]. rewrite Hol. apply in_app_iff. left. exact Hv. }
-        tauto. }
+        assert (HvD : In (ran_of v) (map ran_of D)) by (apply in_rans; auto).
+        split.
+        + intros [[[_ [_ Hn]]|[Hs (a & Ha & Hc)]] Hne]; [contradiction|]. apply ran_of_inj in Ha. subst a. auto.
+        + intros [Hs [Hc Hne]]. split; auto. right. split; auto. exists v. auto. }
+    assert (Hfq : fail_inside sc order -> fail_quiet sc3' (first :: l')).
+    { intros Hfi v Hv. apply nil_of_no_elements. intros [r s] Ht.
+      apply (wf_sym _ W3') in Ht. change (E sc3' (fail_of v) r s) in Ht. rewrite E3', E3, E2 in Ht.
+      destruct Ht as [[[Ht [Hr _]]|[_ (a & Ha & _)]] _].
+      - apply Hr. eapply Permutation_in; [exact Po|].
+        apply (Hfi v (r, s)); [rewrite Hol; apply in_app_iff; left; exact Hv|].
+        apply (wf_sym _ W). exact Ht.
+      - symmetry in Ha. exact (ran_fail_ne _ _ Ha). }
     assert (Hp3' : par sc3' = par sc) by (rewrite J7; exact Hpar3).
-    assert (Fin : forall p q casc, first :: l' = p ++ q -> l4 = map (pair lv) p ++ casc -> (x4 = Ok -> q = []) ->
-                  at_level (S lv) casc -> (quiet sc up -> casc = []) -> run_err x4 -> level_exec lv sc k up l4 x4).
-    { intros p q casc A1 A2 A3 A4 A5 A6. exists order, (first :: l'), p, q, casc.
-      exact (conj T (conj Hol (conj A1 (conj A2 (conj A3 (conj A4 (conj A5 A6))))))). }
+    assert (Fin : forall scr, (forall e, c_ran scr e = c_ran sc3' e) -> run_err x4 ->
+                  chain_result lv (first :: l') scr l4 x4 -> level_exec lv sc k l4 x4).
+    { intros scr Hcr R [A1 A2]. exists order, (first :: l').
+      refine (conj T (conj Hol (conj A1 (conj _ R)))). intros Hfi. apply A2.
+      intros v Hv. rewrite Hcr. apply (Hfq Hfi v Hv). }
     rewrite Hp3' in Ru. destruct (par sc) eqn:Psc.
     + destruct (run_dfs fuel lv sc3' first) as [[a b] c] eqn:Q. inversion Ru; subst.
       assert (R := run_with_re _ lv (emit_dfs_re fuel lv) _ _ _ _ _ Q).
-      destruct (dfs_chain _ _ _ _ _ _ _ _ Hch Q) as (p & q & A1 & A2 & A3).
-      apply (Fin p q []); auto; [rewrite app_nil_r; auto|constructor].
+      apply (Fin sc3'); auto. eapply dfs_chain; eauto.
     + destruct (run_parent fuel lv _ up) as [[[a u] b] c] eqn:Q. inversion Ru; subst.
       assert (R := run_parent_re _ _ _ _ _ _ _ _ Q).
-      assert (Hch' : chained (set_starting (set_automate sc3' false) [first]) (first :: l')).
-      { eapply chained_ext; [|exact Hch]. reflexivity. }
-      destruct (run_parent_chain fuel lv (set_starting (set_automate sc3' false) [first]) up first l' _ _ _ _ eq_refl Hch' Q) as (p & q & casc & A1 & A2 & A3 & A4 & A5).
-      apply (Fin p q casc); auto. intros _. apply A5. unfold quiet. simpl. rewrite Hp3'. exact I.
+      apply (Fin (set_starting (set_automate sc3' false) [first])); auto.
+      eapply (run_parent_chain fuel lv _ up first l'); [reflexivity| |exact Q].
+      eapply chained_ext; [|exact Hch]. reflexivity.
     + assert (R := run_parent_re _ _ _ _ _ _ _ _ Ru).
-      assert (Hch' : chained (set_starting sc3' [first]) (first :: l')).
-      { eapply chained_ext; [|exact Hch]. reflexivity. }
-      destruct (run_parent_chain fuel lv (set_starting sc3' [first]) up first l' _ _ _ _ eq_refl Hch' Ru) as (p & q & casc & A1 & A2 & A3 & A4 & A5).
-      apply (Fin p q casc); auto. intros Hq. apply A5. unfold quiet in *. simpl. rewrite Hp3'. rewrite Psc in Hq. exact Hq.
+      apply (Fin (set_starting sc3' [first])); auto.
+      eapply (run_parent_chain fuel lv _ up first l'); [reflexivity| |exact Ru].
+      eapply chained_ext; [|exact Hch]. reflexivity.
 Qed.
 
 (* ================================================================== the whole pull *)
@@ -1538,120 +1549,35 @@ Fixpoint tree_exec (parents : bool) (lv : nat) (st : stack) (log : list entry) :
       topo_enum (ups sc) k order /\ order = l ++ [k] /\ log = l0 ++ map (pair lv) l
   end.
 
-(* no enclosing composite has anything connected to its `ran` signal *)
-Definition enclosing_quiet (st : stack) : Prop := Forall (fun p => c_ran (fst p) (snd p) = []) (tl st).
-
-Lemma stack_same_quiet rest rest1 : stack_same rest rest1 ->
-  Forall (fun p => c_ran (fst p) (snd p) = []) rest -> Forall (fun p => c_ran (fst p) (snd p) = []) rest1.
-Proof.
-  induction 1 as [|[a ka] [b kb] r r1 [H1 H2] Hr IH]; intros Hq; constructor; inversion Hq; subst; auto.
-  simpl in *. subst kb. destruct H2 as (_&_&_&Hran&_). apply nil_of_no_elements. intros t Ht.
-  apply Hran in Ht. match goal with Hz : c_ran a ka = [] |- _ => rewrite Hz in Ht end. exact Ht.
-Qed.
-
-Lemma pull_tree_exec_partial fuel parents : forall st lv st' log, stack_wf st -> enclosing_quiet st ->
+Lemma pull_tree_exec fuel parents : forall st lv st' log, stack_wf st ->
   pull_tree fuel parents lv st = (st', log, Ok) -> tree_exec parents lv st log.
 Proof.
-  induction st as [|[sc k] rest IH]; intros lv st' log Hw Hq; simpl.
+  induction st as [|[sc k] rest IH]; intros lv st' log Hw; simpl.
   - intros H; inversion H; subst. reflexivity.
-  - inversion Hw as [|? ? Wsc Wrest]; subst. simpl in Wsc. unfold enclosing_quiet in Hq. simpl in Hq.
+  - inversion Hw as [|? ? Wsc Wrest]; subst. simpl in Wsc.
     destruct (match par sc with
               | PMacro => if parents then pull_tree fuel parents (S lv) rest else (rest, [], Ok)
               | _ => (rest, [], Ok) end) as [[rest1 l0] x0] eqn:Q.
     destruct x0; [|intros H; inversion H].
     destruct (level_pull fuel lv sc k (hd_error rest1)) as [[[sc1 up1] l1] x1] eqn:Lp.
     intros H; inversion H; subst; clear H.
-    assert (Hrest : stack_same rest rest1 /\
-                    match par sc with
-                    | PMacro => if parents then tree_exec parents (S lv) rest l0 else l0 = []
-                    | _ => l0 = [] end).
-    { destruct (par sc); try (inversion Q; subst; split; [apply stack_same_refl; auto|reflexivity]).
-      destruct parents; [|inversion Q; subst; split; [apply stack_same_refl; auto|reflexivity]].
-      split; [eapply pull_tree_restores; eauto|]. eapply IH; eauto.
-      unfold enclosing_quiet. destruct rest; simpl; [constructor|]. inversion Hq; auto. }
-    destruct Hrest as [Hs Ht].
+    assert (Ht : match par sc with
+                 | PMacro => if parents then tree_exec parents (S lv) rest l0 else l0 = []
+                 | _ => l0 = [] end).
+    { destruct (par sc); try (inversion Q; subst; reflexivity).
+      destruct parents; [|inversion Q; subst; reflexivity]. eapply IH; eauto. }
     destruct (level_pull_exec _ _ _ _ _ _ _ _ _ Wsc Lp) as [[_ [?|?]]|Hx]; try discriminate.
-    destruct Hx as (order & l & p & q & casc & T & Ho & Hl & Hlog & Hq0 & _ & Hc & _).
-    specialize (Hq0 eq_refl). subst q. rewrite app_nil_r in Hl. subst p.
-    assert (casc = []).
-    { apply Hc. unfold quiet. destruct (par sc); auto. destruct (hd_error rest1) as [[usc pk]|] eqn:Hh; auto.
-      assert (Hq1 := stack_same_quiet _ _ Hs Hq). destruct rest1 as [|[u p'] r1]; [discriminate|].
-      simpl in Hh. inversion Hh; subst. inversion Hq1; subst. assumption. }
-    subst casc. rewrite app_nil_r in Hlog. subst l1. exists l0, order, l. auto.
+    destruct Hx as (order & l & T & Ho & Hlog & _ & _).
+    rewrite (Hlog eq_refl). exists l0, order, l. auto.
 Qed.
 
-Lemma pull_tree_levels fuel parents : forall st lv st' log x, stack_wf st ->
-  pull_tree fuel parents lv st = (st', log, x) -> Forall (fun e => lv <= fst e) log.
-Proof.
-  induction st as [|[sc k] rest IH]; intros lv st' log x Hw; simpl.
-  - intros H; inversion H; subst. constructor.
-  - inversion Hw as [|? ? Wsc Wrest]; subst. simpl in Wsc.
-    destruct (match par sc with
-              | PMacro => if parents then pull_tree fuel parents (S lv) rest else (rest, [], Ok)
-              | _ => (rest, [], Ok) end) as [[rest1 l0] x0] eqn:Q.
-    assert (H0 : Forall (fun e => S lv <= fst e) l0).
-    { destruct (par sc); try (inversion Q; subst; constructor).
-      destruct parents; [eapply IH; eauto|inversion Q; subst; constructor]. }
-    assert (H0' : Forall (fun e => lv <= fst e) l0).
-    { eapply Forall_impl; [|exact H0]. simpl. intros; lia. }
-    destruct x0; [|intros H; inversion H; subst; exact H0'].
-    destruct (level_pull fuel lv sc k (hd_error rest1)) as [[[sc1 up1] l1] x1] eqn:Lp.
-    intros H; inversion H; subst; clear H. apply Forall_app. split; auto.
-    destruct (level_pull_exec _ _ _ _ _ _ _ _ _ Wsc Lp) as [[-> _]|Hx]; [constructor|].
-    destruct Hx as (order & l & p & q & casc & _ & _ & _ & Hlog & _ & Hc & _). subst l1.
-    apply Forall_app. split.
-    + apply Forall_forall. intros e He. apply in_map_iff in He. destruct He as (v & <- & _). simpl. lia.
-    + eapply Forall_impl; [|exact Hc]. simpl. intros; lia.
-Qed.
-
-Definition level0 (log : list entry) : list entry := filter (fun e => Nat.eqb (fst e) 0) log.
-
-Lemma level0_high l : Forall (fun e => 1 <= fst e) l -> level0 l = [].
-Proof.
-  unfold level0. induction 1 as [|e r He Hr IH]; simpl; auto.
-  destruct (Nat.eqb (fst e) 0) eqn:Q; auto. apply Nat.eqb_eq in Q. lia.
-Qed.
-Lemma level0_map l : level0 (map (pair 0) l) = map (pair 0) l.
-Proof. unfold level0. induction l; simpl; auto. f_equal. exact IHl. Qed.
-Lemma level0_app a b : level0 (a ++ b) = level0 a ++ level0 b.
-Proof. unfold level0. apply filter_app. Qed.
-
-(* in the target's own scope exactly the closure runs, in dependency order, target last --
-   whatever enclosing macros push among their own siblings *)
-Lemma pull_target_scope fuel parents sc k rest st' log : stack_wf ((sc, k) :: rest) ->
+Lemma pull_exec fuel parents sc k rest st' log : stack_wf ((sc, k) :: rest) ->
   pull fuel parents ((sc, k) :: rest) = (st', log, Ok) ->
-  exists order l, topo_enum (ups sc) k order /\ order = l ++ [k] /\ level0 log = map (pair 0) order.
+  exists l1, tree_exec parents 0 ((sc, k) :: rest) l1 /\ log = l1 ++ [(0, k)].
 Proof.
   intros Hw. unfold pull. destruct (pull_tree fuel parents 0 ((sc, k) :: rest)) as [[st1 l1] x1] eqn:Q.
   destruct x1; [|intros H; inversion H].
-  simpl in Q. inversion Hw as [|? ? Wsc Wrest]; subst. simpl in Wsc.
-  destruct (match par sc with
-            | PMacro => if parents then pull_tree fuel parents 1 rest else (rest, [], Ok)
-            | _ => (rest, [], Ok) end) as [[rest1 l0] x0] eqn:Q0.
-  assert (H0 : Forall (fun e => 1 <= fst e) l0).
-  { destruct (par sc); try (inversion Q0; subst; constructor).
-    destruct parents; [eapply pull_tree_levels; eauto|inversion Q0; subst; constructor]. }
-  destruct x0; [|inversion Q].
-  destruct (level_pull fuel 0 sc k (hd_error rest1)) as [[[sc1 up1] l2] x2] eqn:Lp.
-  inversion Q; subst; clear Q.
-  destruct (level_pull_exec _ _ _ _ _ _ _ _ _ Wsc Lp) as [[_ [?|?]]|Hx]; try discriminate.
-  destruct Hx as (order & l & p & q & casc & T & Ho & Hl & Hlog & Hq0 & Hc & _).
-  specialize (Hq0 eq_refl). subst q. rewrite app_nil_r in Hl. subst p.
-  destruct (failed sc1 k); [intros H; inversion H|]. destruct (bad sc1 k); intros H; inversion H; subst.
-  exists (l ++ [k]), l. split; auto. split; auto.
-  assert (Hc' : Forall (fun e : nat * nat => 1 <= fst e) casc).
-  { eapply Forall_impl; [|exact Hc]. simpl. intros a Ha. rewrite Ha. auto. }
-  rewrite !level0_app, (level0_high l0 H0), level0_map, (level0_high casc Hc'). simpl.
-  rewrite app_nil_r, map_app. reflexivity.
-Qed.
-
-Lemma pull_exec_partial fuel parents sc k rest st' log : stack_wf ((sc, k) :: rest) ->
-  enclosing_quiet ((sc, k) :: rest) -> pull fuel parents ((sc, k) :: rest) = (st', log, Ok) ->
-  exists l1, tree_exec parents 0 ((sc, k) :: rest) l1 /\ log = l1 ++ [(0, k)].
-Proof.
-  intros Hw Hq. unfold pull. destruct (pull_tree fuel parents 0 ((sc, k) :: rest)) as [[st1 l1] x1] eqn:Q.
-  destruct x1; [|intros H; inversion H].
-  assert (T := pull_tree_exec_partial _ _ _ _ _ _ Hw Hq Q).
+  assert (T := pull_tree_exec _ _ _ _ _ _ Hw Q).
   assert (Hs := pull_tree_restores _ _ _ _ _ _ _ Hw Q).
   inversion Hs as [|? [sc1 k1] ? r1 [H1 H2] Hr]; subst.
   simpl in H1. subst k1. destruct (failed sc1 k); [intros H; inversion H|].
@@ -1696,16 +1622,6 @@ Definition nofn {A} : nat -> list A := fun _ => [].
 Definition nob : nat -> bool := fun _ => false.
 Definition nolbl : nat -> string := fun i => match i with 0 => "a" | 1 => "b" | 2 => "c" | _ => "d" end.
 
-(* S12: a macro m (node 0 of the outer scope) holding a -> b; outside, m >> d.  Pulling b (even
-   without parent scopes) runs m, m emits `ran`, d runs -- it is not upstream of anything pulled *)
-Definition w_inner : scope :=
-  mkScope nolbl (fun i => match i with 1 => [0] | _ => [] end) nofn nofn nofn nofn nob nob nob PMacro [] true false.
-Definition w_outer : scope :=
-  mkScope nolbl (fun i => match i with 1 => [0] | _ => [] end)
-          (fun i => match i with 1 => [0] | _ => [] end) nofn
-          (fun i => match i with 0 => [(1, IRun)] | _ => [] end) nofn nob nob nob PNone [] true false.
-Definition w_stack : stack := [(w_inner, 1); (w_outer, 0)].
-
 Lemma WF_empty sc : (forall i, c_run sc i = []) -> (forall i, c_acc sc i = []) -> (forall i, c_ran sc i = []) -> WF sc.
 Proof.
   intros H1 H2 H3. constructor.
@@ -1713,6 +1629,16 @@ Proof.
   - intros r s. destruct s; simpl; rewrite ?H1, ?H2; constructor.
   - intros e. rewrite H3. constructor.
 Qed.
+
+(* regression instance of the repaired defect S12: a macro m (node 0 of the outer scope) holding a -> b;
+   outside, m >> d.  Pulling b runs a and b only *)
+Definition w_inner : scope :=
+  mkScope nolbl (fun i => match i with 1 => [0] | _ => [] end) nofn nofn nofn nofn nob nob nob PMacro [] true false.
+Definition w_outer : scope :=
+  mkScope nolbl (fun i => match i with 1 => [0] | _ => [] end)
+          (fun i => match i with 1 => [0] | _ => [] end) nofn
+          (fun i => match i with 0 => [(1, IRun)] | _ => [] end) nofn nob nob nob PNone [] true false.
+Definition w_stack : stack := [(w_inner, 1); (w_outer, 0)].
 
 Lemma w_outer_WF : WF w_outer.
 Proof.
@@ -1727,18 +1653,34 @@ Proof.
   constructor; [simpl; apply WF_empty; reflexivity|]. constructor; [exact w_outer_WF|constructor].
 Qed.
 
-(* signal order: n.run = [b.ran; a.ran] before, [a.ran; b.ran] after pulling t (t <- n) *)
-Definition w_order : scope :=
-  mkScope nolbl (fun i => match i with 3 => [2] | _ => [] end)
-          (fun i => match i with 2 => [1; 0] | _ => [] end) nofn
-          (fun i => match i with 0 => [(2, IRun)] | 1 => [(2, IRun)] | _ => [] end) nofn nob nob nob PNone [] true false.
-Lemma w_order_WF : WF w_order.
+(* a `failed` handler: a (node 0) raises, t (node 1) <- a is pulled, h (node 2) hangs on a.failed
+   (emitter 1 = fail_of 0) *)
+Definition w_handler : scope :=
+  mkScope nolbl (fun i => match i with 1 => [0] | _ => [] end)
+          (fun i => match i with 2 => [1] | _ => [] end) nofn
+          (fun e => match e with 1 => [(2, IRun)] | _ => [] end) nofn nob
+          (fun i => match i with 0 => true | _ => false end) nob PNone [] true false.
+Lemma w_handler_WF : WF w_handler.
 Proof.
   constructor.
   - intros e r s. destruct s; destruct r as [|[|[|r]]]; destruct e as [|[|e]]; simpl; split; intros H;
       repeat (destruct H as [H|H]; try discriminate; try (inversion H; fail)); auto; try contradiction.
-  - intros r s. destruct s; destruct r as [|[|[|r]]]; simpl; repeat constructor; simpl; intuition discriminate.
+  - intros r s. destruct s; destruct r as [|[|[|r]]]; simpl; repeat constructor; simpl; tauto.
   - intros e. destruct e as [|[|e]]; simpl; repeat constructor; simpl; tauto.
+Qed.
+
+(* signal order: n.run = [b.ran; a.ran] (emitters 2, 0) before, [a.ran; b.ran] after pulling t (t <- n) *)
+Definition w_order : scope :=
+  mkScope nolbl (fun i => match i with 3 => [2] | _ => [] end)
+          (fun i => match i with 2 => [2; 0] | _ => [] end) nofn
+          (fun e => match e with 0 => [(2, IRun)] | 2 => [(2, IRun)] | _ => [] end) nofn nob nob nob PNone [] true false.
+Lemma w_order_WF : WF w_order.
+Proof.
+  constructor.
+  - intros e r s. destruct s; destruct r as [|[|[|r]]]; destruct e as [|[|[|e]]]; simpl; split; intros H;
+      repeat (destruct H as [H|H]; try discriminate; try (inversion H; fail)); auto; try contradiction.
+  - intros r s. destruct s; destruct r as [|[|[|r]]]; simpl; repeat constructor; simpl; intuition discriminate.
+  - intros e. destruct e as [|[|[|e]]]; simpl; repeat constructor; simpl; tauto.
 Qed.
 
 (* non-vacuity instance for Props/C11.v *)
